@@ -33,6 +33,7 @@ Definition feed_video_pure (d : bool) (s : r2t) (m : rmsg) : r2t * list tsev :=
            (let* (v, sp, q) := hevc_parse_enhanced_seq_header (rm_payload m) in
             Ok (hsc4 ++ v ++ hsc4 ++ sp ++ hsc4 ++ q))), [])
       else (set_spspps s (res_to_opt (hevc_seq_header2annexb (rm_payload m))), [])
+    else if enhanced_too_short m then (s, [])
     else
       let c := if cid =? codec_id_hevc then Hevc else Avc in
       let body := if (cid =? codec_id_hevc) && is_enhanced_hevc_nalu m
@@ -146,6 +147,7 @@ Section AnyObserver.
     destruct (negb _); [exists false; reflexivity|].
     destruct (is_avc_key_seq_header m); [exists false; reflexivity|].
     destruct (is_hevc_key_seq_header m); [destruct (is_ext_header m); exists false; reflexivity|].
+    destruct (enhanced_too_short m); [exists false; reflexivity|].
     destruct (iterate_nalu_avcc _) as [nals [e|]]; [exists false; reflexivity|].
     destruct (video_loop _ _ _ _ _ _ _ _ _) as [cache [[|b out]|]]; try (exists false; reflexivity).
     set (s0 := set_spspps s cache).
